@@ -101,15 +101,29 @@ var unicodeStoreNames = []string{"ca:caf\u00e9-store", "signingAuthority:\u5e97"
 
 func concStmtCore(a AbsStmt, salt uint32) (string, trustpolicy.SignatureVerification, []string, []string) {
 	sv := trustpolicy.SignatureVerification{VerificationLevel: levelAtom[a.Level], VerifyTimestamp: trustpolicy.TimestampOption(vtsAtom[a.Vts])}
+	// an unknown value is rendered in several ways: something else altogether, or a near miss of a known value (letter case,
+	// surrounding blanks) - values are matched exactly
+	if a.Level == "bogus" {
+		sv.VerificationLevel = pick([]string{"medium", "Strict", " strict", "strict ", "AUDIT", "skip\n"}, salt)
+	}
+	if a.Vts == "bogus" {
+		sv.VerifyTimestamp = trustpolicy.TimestampOption(pick([]string{"sometimes", "Always", "always ", "aftercertexpiry", "afterCertExpiry "}, salt/7))
+	}
 	if len(a.Override) > 0 {
 		sv.Override = map[trustpolicy.ValidationType]trustpolicy.ValidationAction{}
 		for k, v := range a.Override {
 			ck, cv := k, v
 			if x, ok := ovKeyAtom[k]; ok {
 				ck = x
+				if k == "bogusType" {
+					ck = pick([]string{"signatureType", "Integrity", "revocation ", "Expiry", " authenticity", "authentictimestamp"}, salt/11)
+				}
 			}
 			if x, ok := ovValAtom[v]; ok {
 				cv = x
+				if v == "bogus" {
+					cv = pick([]string{"warn", "Log", " log", "Enforce", "skip ", "LOG"}, salt/13)
+				}
 			}
 			sv.Override[trustpolicy.ValidationType(ck)] = trustpolicy.ValidationAction(cv)
 		}
@@ -120,8 +134,13 @@ func concStmtCore(a AbsStmt, salt uint32) (string, trustpolicy.SignatureVerifica
 	var stores, ids []string
 	for _, s := range a.Stores {
 		c, ok := storeAtom[s]
-		if s == "ca:unicode" {
+		switch s {
+		case "ca:unicode":
 			c, ok = pick(unicodeStoreNames, salt), true
+		case "bogus:s":
+			c = pick([]string{"bogusType:acme", "CA:acme", "Ca:acme", " ca:acme", "signingauthority:acme", "TSA:acme"}, salt/17)
+		case "ca:bad/name":
+			c = pick([]string{"ca:bad/name", "ca:bad name", "ca:bad\\name", "ca:name:x", "ca: acme", "ca:acme ", "ca:ac*me"}, salt/19)
 		}
 		if !ok {
 			panic("unknown store atom " + s)
@@ -142,8 +161,16 @@ func concStmtCore(a AbsStmt, salt uint32) (string, trustpolicy.SignatureVerifica
 	return n, sv, stores, ids
 }
 
+// an unsupported version: another version, or a near miss of the supported one
+func versionOf(atom string, salt uint32) string {
+	if atom == "unsupported" {
+		return pick([]string{"0.9", "1.0 ", "1", "1.0.0", "v1.0", "2.0", " 1.0", "1.00"}, salt/23)
+	}
+	return versionAtom[atom]
+}
+
 func concOCI(d AbsDoc, salt uint32) *trustpolicy.OCIDocument {
-	doc := &trustpolicy.OCIDocument{Version: versionAtom[d.Version]}
+	doc := &trustpolicy.OCIDocument{Version: versionOf(d.Version, salt)}
 	for i, a := range d.Stmts {
 		n, sv, stores, ids := concStmtCore(a, salt+uint32(i)*13)
 		var scopes []string
@@ -160,7 +187,7 @@ func concOCI(d AbsDoc, salt uint32) *trustpolicy.OCIDocument {
 }
 
 func concBlob(d AbsDoc, salt uint32) *trustpolicy.BlobDocument {
-	doc := &trustpolicy.BlobDocument{Version: versionAtom[d.Version]}
+	doc := &trustpolicy.BlobDocument{Version: versionOf(d.Version, salt)}
 	for i, a := range d.Stmts {
 		n, sv, stores, ids := concStmtCore(a, salt+uint32(i)*13)
 		doc.TrustPolicies = append(doc.TrustPolicies, trustpolicy.BlobTrustPolicy{Name: n, SignatureVerification: sv, TrustStores: stores, TrustedIdentities: ids, GlobalPolicy: a.Global})
